@@ -280,4 +280,80 @@ def specCaseExec (subject : List Char) : Bool → Nat → List (List Ast × Case
         | .cont => specCaseExec subject false (i + 1) rest)
     else specCaseExec subject false (i + 1) rest
 
+/-! ## every configuration (extension round): which parts of the text a configuration lets the pattern match,
+    and the leading-period rule of XCU 2.13.3 -/
+
+/-- `s[i..j]` is an occurrence of the pattern under the anchoring `(ab, ae)`: that part of the text is in the
+    glob language; it starts at 0 if the pattern is anchored at the beginning and ends at the end of `s` if it
+    is anchored at the end -/
+def occurs (ab ae : Bool) (ast : Ast) (s : List Char) (i j : Nat) : Prop :=
+  i ≤ j ∧ j ≤ s.length ∧ (ab = true → i = 0) ∧ (ae = true → j = s.length) ∧
+    globMatch ast ((s.take j).drop i) = true
+
+/-- executable form of `occurs` -/
+def occursB (ab ae : Bool) (ast : Ast) (s : List Char) (i j : Nat) : Bool :=
+  decide (i ≤ j) && decide (j ≤ s.length) && (!ab || i == 0) && (!ae || j == s.length) &&
+    globMatch ast ((s.take j).drop i)
+
+/-- `is_match` under a configuration: some occurrence starting at or after `from` -/
+def specIsMatchFrom (ab ae : Bool) (ast : Ast) (s : List Char) (start : Nat) : Bool :=
+  (List.range (s.length + 1)).any fun i => decide (start ≤ i) &&
+    (List.range (s.length + 1)).any fun j => occursB ab ae ast s i j
+
+def specIsMatch (ab ae : Bool) (ast : Ast) (s : List Char) : Bool := specIsMatchFrom ab ae ast s 0
+
+/-- the pattern begins with an explicit period -/
+def explicitDot : Ast → Bool
+  | .char c :: _ => c == '.'
+  | _ => false
+
+/-- XCU 2.13.3, first rule for file names: a leading period of the name is matched only by a period written as the
+    first character of the pattern (not by `?`, `*` or a bracket expression) -/
+def specPeriodMatch (ast : Ast) (s : List Char) : Bool :=
+  globMatch ast s && (s.head? != some '.' || explicitDot ast)
+
+/-! ## the character classes of the POSIX locale (XBD 7.3.1 "LC_CTYPE" of the POSIX locale definition), written as
+    the standard lists them — independent of the range tables `AsciiKind.mem` that the model shares with the regex
+    crate.  `posix_classes_agree` (Theorems.lean) shows that `atomHas` on `[:name:]` is membership in these lists. -/
+
+def posixUpper : List Char := "ABCDEFGHIJKLMNOPQRSTUVWXYZ".toList
+def posixLower : List Char := "abcdefghijklmnopqrstuvwxyz".toList
+def posixDigit : List Char := "0123456789".toList
+/-- `<space> <form-feed> <newline> <carriage-return> <tab> <vertical-tab>` -/
+def posixSpace : List Char := [' ', Char.ofNat 12, '\n', '\r', '\t', Char.ofNat 11]
+/-- `<space> <tab>` -/
+def posixBlank : List Char := [' ', '\t']
+/-- `<NUL>` … `<US>` (the 32 C0 controls) and `<DEL>` -/
+def posixCntrl : List Char := (List.range 32).map Char.ofNat ++ [Char.ofNat 127]
+def posixPunct : List Char := "!\"#$%&'()*+,-./:;<=>?@[\\]^_`{|}~".toList
+def posixXdigit : List Char := posixDigit ++ "ABCDEFabcdef".toList
+def posixAlpha : List Char := posixUpper ++ posixLower
+def posixAlnum : List Char := posixAlpha ++ posixDigit
+def posixGraph : List Char := posixAlnum ++ posixPunct
+def posixPrint : List Char := posixGraph ++ [' ']
+
+/-- the twelve class names XBD 9.3.5 requires, with their members in the POSIX locale -/
+def posixClass (name : List Char) : Option (List Char) :=
+  if name = "alnum".toList then some posixAlnum
+  else if name = "alpha".toList then some posixAlpha
+  else if name = "blank".toList then some posixBlank
+  else if name = "cntrl".toList then some posixCntrl
+  else if name = "digit".toList then some posixDigit
+  else if name = "graph".toList then some posixGraph
+  else if name = "lower".toList then some posixLower
+  else if name = "print".toList then some posixPrint
+  else if name = "punct".toList then some posixPunct
+  else if name = "space".toList then some posixSpace
+  else if name = "upper".toList then some posixUpper
+  else if name = "xdigit".toList then some posixXdigit
+  else none
+
+/-! ## backslash in a pattern that results from an expansion (XCU 2.13.1): a backslash quotes the next character;
+    a backslash with nothing after it stands for itself (POSIX leaves that case unspecified; yash's choice) -/
+
+def escapeChars : List Char → List PatternChar
+  | [] => []
+  | [c] => [.normal c]
+  | c :: d :: t => if c = '\\' then .literal d :: escapeChars t else .normal c :: escapeChars (d :: t)
+
 end YashModel.Fnmatch
